@@ -2,6 +2,7 @@ import NssVerif.Props.C04
 import NssVerif.Props.C05
 import NssVerif.Lemmas.Slice
 import NssVerif.Lemmas.MinEnergy
+import NssVerif.Lemmas.VecBatch
 import NssVerif.Props.C07
 import Mathlib.Tactic.IntervalCases
 
@@ -106,6 +107,43 @@ theorem whereCols_aligned (m : List (List Bool)) (idx : List Nat)
   induction h with
   | nil => rfl
   | cons hr _ ih => simp [List.flatMap_cons, hr, ih]
+
+/-- **Row alignment of the batch as the code computes it.** For every batch of non-decreasing rows (plateaux
+allowed) with each query strictly inside its row's range, `vec_1d_interp` — flat `np.where` index lists, row-major
+boolean-mask selection — succeeds and its `k`-th output is the row-wise result for row `k` and query `k`:
+no row can pick up another row's bracket. -/
+theorem vecInterp_batch_aligned : ∀ (ps : List (List ℝ × ℝ)) (ys : List ℝ),
+    (∀ p ∈ ps, Bracket.Mono p.1 ∧ ∃ hne : p.1 ≠ [], p.1.head hne < p.2 ∧ p.2 ≤ p.1.getLast hne) →
+    ∃ out, vecInterp (ps.map (·.1)) ys (ps.map (·.2)) = some out ∧ out.length = ps.length ∧
+      ∀ k (hk : k < ps.length), vecInterp1 (ps[k]).1 ys (ps[k]).2 = out[k]? := by
+  intro ps ys hps
+  -- index lists row by row
+  have hidx : ∃ hi lo : List Nat,
+      List.Forall₂ (fun (p : List ℝ × ℝ) k => trueIdx (hiM p.1 p.2) = [k]) ps hi ∧
+      List.Forall₂ (fun (p : List ℝ × ℝ) k => trueIdx (loM p.1 p.2) = [k]) ps lo := by
+    induction ps with
+    | nil => exact ⟨[], [], List.Forall₂.nil, List.Forall₂.nil⟩
+    | cons p ps ih =>
+      obtain ⟨hi, lo, h1, h2⟩ := ih (fun q hq => hps q (List.mem_cons_of_mem _ hq))
+      obtain ⟨hm, hne, hf, hl⟩ := hps p List.mem_cons_self
+      obtain ⟨k, _, _, _, a, b⟩ := masks_singleton p.1 p.2 hm hne hf hl
+      exact ⟨k :: hi, (k+1) :: lo, List.Forall₂.cons a h1, List.Forall₂.cons b h2⟩
+  obtain ⟨hi, lo, hH, hL⟩ := hidx
+  have hz : (ps.map (·.1)).zip (ps.map (·.2)) = ps := by
+    rw [List.zip_map']; simp
+  have hlen : (ps.map (·.1)).length = (ps.map (·.2)).length := by simp
+  have key := VecBatch.vecInterp_eq_rowwise (ps.map (·.1)) ys (ps.map (·.2)) hi lo hlen (by rw [hz]; exact hH) (by rw [hz]; exact hL)
+  refine ⟨_, key, by simp, ?_⟩
+  intro k hk
+  have lH : hi.length = ps.length := hH.length_eq.symm
+  have lL : lo.length = ps.length := hL.length_eq.symm
+  have eH : trueIdx (hiM (ps[k]).1 (ps[k]).2) = [hi[k]'(by omega)] := List.Forall₂.get hH hk (by omega)
+  have eL : trueIdx (loM (ps[k]).1 (ps[k]).2) = [lo[k]'(by omega)] := List.Forall₂.get hL hk (by omega)
+  rw [VecBatch.vecInterp1_of_masks _ ys _ _ _ eH eL]
+  simp only [List.length_map, List.getElem?_map, List.getElem?_range hk, Option.map_some]
+  congr 2
+  all_goals simp [List.getD_eq_getElem?_getD, List.getElem?_eq_getElem hk, List.getElem?_zipWith,
+    List.getElem?_eq_getElem (by omega : k < hi.length), List.getElem?_eq_getElem (by omega : k < lo.length)]
 
 /-! ### slicing -/
 
